@@ -166,7 +166,9 @@ class Ownership:
         mod, ci, fn = self.fn_index[qual]
         cfg = Config()
         cfg.opaque_all = True
+        cfg.coarse_counts = True
         cfg.max_depth = 6
+        cfg.inline = set(self.__dict__.get("inline", ()))
         for q, sm in self.sums.items():
             if sm.ret_fresh is not None or sm.ret_alias_self:
                 cfg.return_origin[q] = {"fresh": bool(sm.ret_fresh), "fields_fresh": bool(sm.ret_fields_fresh),
